@@ -120,7 +120,7 @@ def parse_vspec(path):
                 else:
                     raise SpecError(f'{path}:{i+1}: bad token {rest[k]}')
             u.parts.append(('item', it)); cur_item = it; i += 1
-        elif d in ('@sig', '@loop', '@loopend', '@before', '@after', '@closure', '@closure?', '@ret', '@tail', '@head', '@drop', '@split_or_arm', '@idiom', '@dropstmt', '@relift', '@tryforeach', '@attr', '@hoist', '@loophead'):
+        elif d in ('@sig', '@loop', '@loopend', '@before', '@after', '@closure', '@closure?', '@ret', '@tail', '@head', '@drop', '@split_or_arm', '@idiom', '@idiom?', '@dropstmt', '@relift', '@tryforeach', '@attr', '@hoist', '@loophead'):
             if cur_item is None: raise SpecError(f'{path}:{i+1}: {d} outside @item')
             a = Ann(kind=d[1:].rstrip('?'), line=i + 1)
             if d.endswith('?'): a.opts['optional'] = '1'   # anchor may be absent (code before/after a fix)
@@ -148,7 +148,7 @@ def parse_vspec(path):
                 m = re.match(r'<<\s*(enum|struct)\s+(\w+)\s*>>\s*$', rest)
                 if not m: raise SpecError(f'{path}:{i+1}: @hoist needs <<enum|struct Name>>')
                 a.arg, a.arg2 = m.group(1), m.group(2); i += 1
-            elif d in ('@closure', '@closure?', '@idiom', '@relift'):
+            elif d in ('@closure', '@closure?', '@idiom', '@idiom?', '@relift'):
                 # optional third part `<<let PAT = p;>>` (or `bind <<let PAT = p;>>`) = destructuring of the renamed closure
                 # parameter, inserted as the first statement of the closure body (Verus: closure params must be plain variables)
                 m = re.match(r'<<(.*?)>>\s*=>\s*<<(.*?)>>(?:\s*(?:bind\s*)?<<(.*?)>>)?(?:\s+nth=(\d+))?\s*$', rest)
@@ -188,7 +188,16 @@ def find_item(rel, kind, sel):
     src, toks, ct, items = load_file(rel)
 
     def non_test(its):
-        return [x for x in its if not x.cfg_test]
+        # R22: an item whose `#[cfg(P)]` is false under the verified configuration (R2c: all features, tokio_unstable, unix,
+        # not test) is not compiled, hence never a candidate; this selects between cfg-alternative definitions of one name
+        # (e.g. the two `Host::new`).  Children of impls are filtered when the impl is searched (cfg_live below).
+        return [x for x in its if not x.cfg_test and cfg_live(x)]
+
+    def cfg_live(x):
+        for m in re.finditer(r'#\[cfg\((.*)\)\]', src[x.start:x.decl_start]):
+            if not cfg_true(m.group(1)):
+                return False
+        return True
 
     mods = []
     path = sel
@@ -236,7 +245,7 @@ def find_item(rel, kind, sel):
             for imp in scope:
                 if imp.kind == 'impl' and imp.self_type == segs[0] and not imp.trait_name:
                     for c in imp.children:
-                        if c.kind == 'fn' and c.name == segs[1]:
+                        if c.kind == 'fn' and c.name == segs[1] and cfg_live(c):
                             cand.append((c, imp))
             if len(cand) != 1:
                 raise SpecError(f'LOST-ANCHOR: {rel}: fn {sel}: {len(cand)} matches')
@@ -413,12 +422,21 @@ def apply_renames(tx: Text, renames):
                 if ct[i].kind == 'id' and ct[i].text == old[1:] and ct[i - 1].text == '.' and ct[i + 1].text == '(':
                     tx.edit(ct[i].start, ct[i].end, new.lstrip('.'), 'R7', f'method {old} => {new}')
             continue
+        # R21: `@rename dyn~a::Trait => Stub` erases the trait-object type `dyn a::Trait` to the declared (sized) stub type:
+        # the `dyn` keyword in front of the path is part of the match and of the replaced span.  Verus supports neither
+        # `&mut T -> &mut dyn Trait` unsizing nor contracts on foreign trait methods; a trait object used only as an opaque
+        # value is modelled by one abstract type carrying ghost state (the dispatch target is not observable in the contracts).
+        dyn_erase = old.startswith('dyn~')
+        if dyn_erase:
+            old = old[4:]
         segs = old.split('::')
         n = len(segs)
         i = 0
         while i < len(ct):
             # match ident (:: ident)*
             k = i; ok = True
+            if dyn_erase and not (i > 0 and ct[i - 1].kind == 'id' and ct[i - 1].text == 'dyn'):
+                i += 1; continue
             for si, sname in enumerate(segs):
                 if k >= len(ct) or ct[k].kind != 'id' or ct[k].text != sname: ok = False; break
                 k += 1
@@ -431,7 +449,10 @@ def apply_renames(tx: Text, renames):
                 is_path_sep = (i > 1 and prev == ':' and ct[i - 2].text == ':' and ct[i - 2].end == ct[i - 1].start)
                 if is_path_sep or prev == '.':
                     i += 1; continue
-                tx.edit(ct[i].start, ct[k - 1].end, new, 'R7', f'{old} => {new}')
+                if dyn_erase:
+                    tx.edit(ct[i - 1].start, ct[k - 1].end, new, 'R21', f'trait-object type `dyn {old}` erased to stub type {new}')
+                else:
+                    tx.edit(ct[i].start, ct[k - 1].end, new, 'R7', f'{old} => {new}')
                 i = k; continue
             i += 1
 
@@ -1239,8 +1260,13 @@ class Gen:
             return
         pat = mkpat(a.arg)
         ms = list(re.finditer(pat, s_all))
+        if len(ms) == 0 and a.opts.get('optional'):
+            return      # `@idiom?`: optional anchor (one sidecar for code before/after a change), skipped when absent
         if len(ms) != 1:
             raise SpecError(f'LOST-ANCHOR: {region}: idiom <<{a.arg}>> occurs {len(ms)} times')
+        # automatic edits (renames R7/R21) lying inside the replaced idiom text are subsumed by it (cf. apply_drop)
+        if not hasattr(tx, 'subsumed'): tx.subsumed = set()
+        tx.subsumed |= {(s_, e_) for (s_, e_, _r) in tx.edits if tx.start + ms[0].start() <= s_ and e_ <= tx.start + ms[0].end()}
         tx.edit(tx.start + ms[0].start(), tx.start + ms[0].end(), a.arg2, 'R11', f'std idiom replaced by contract stub: {a.arg2}')
 
     def apply_drop(self, tx, a, lo, hi):
@@ -1385,6 +1411,8 @@ class Gen:
                     inserts.append((bp, btxt))
             elif a.kind == 'drop':
                 self.apply_drop(sub, a, 0, 0)
+            elif a.kind == 'idiom':
+                self.apply_idiom(sub, a, region)     # R11 also applies inside a lifted closure body
         if it.opts.get('fx'):
             apply_fx(sub, sct, fp['bopen'], fp['bclose'], it.opts['fx'].split(':', 1)[0], it.opts.get('fxcalls', '').split(','), inserts,
                      lambda pos, text: (pos, text))
